@@ -177,7 +177,7 @@ Qed.
    (OSearch, OAnd, OOr, OCollect, OOne) and OReopen (a new handle) *)
 Definition keeps_srch (o : op) : bool :=
   match o with
-  | OSearch _ _ _ _ | OAnd _ _ _ _ _ | OOr _ _ _ _ _ | OCollect _ _ _ | OOne _ | OReopen => false
+  | OSearch _ _ _ _ | OAnd _ _ _ _ _ | OOr _ _ _ _ _ | OCollect _ _ _ | OOne _ | OReopen | OExpects _ _ _ => false
   | _ => true
   end.
 
@@ -301,6 +301,13 @@ Proof.
   - repeat break_match; inv H; reflexivity.
   - inv H; reflexivity.
   - inv H; reflexivity.
+  - (* OFlushOne *)
+    destruct (if withc then commit ls (s_h s) (s_w s) else (s_h s, None, s_w s)) as [[h0 e0] w0] eqn:C.
+    assert (S0 : h_srch h0 = h_srch (s_h s)).
+    { destruct withc; [apply (commit_srch _ _ _ _ _ _ C)|inv C; reflexivity]. }
+    destruct (db_schema ls h0 (w_disk w0)) as [[h1 mo] eo] eqn:Hs. apply db_schema_srch in Hs.
+    destruct mo as [m|]; destruct eo as [x|]; try (inv H; cbn; congruence).
+    destruct (write_object w0 m u ob). inv H. cbn. congruence.
 Qed.
 Print Assumptions writes_keep_searches_fg.
 
@@ -837,7 +844,7 @@ Qed.
 (* the operations which (re)bind the search name [sid], or forget every search *)
 Definition defines (o : op) (sid : N) : bool :=
   match o with
-  | OSearch s _ _ _ | OAnd s _ _ _ _ | OOr s _ _ _ _ => N.eqb s sid
+  | OSearch s _ _ _ | OAnd s _ _ _ _ | OOr s _ _ _ _ | OExpects s _ _ => N.eqb s sid
   | OReopen => true
   | _ => false
   end.
@@ -915,6 +922,11 @@ Proof.
       cbn [fst]. apply find_srch_put; [congruence|]. intros <-. split; cbn; congruence.
     * apply find_srch_put; [exact Hs|]. intros <-. split; cbn; congruence.
     * apply find_srch_same. exact Hs.
+  - (* OExpects: only the value it is applied to can change (its error) *)
+    apply N.eqb_neq in Hd.
+    destruct (sr_err (find_srch (s_h s) sid0)); cbn [fst]; [apply find_srch_same; reflexivity|].
+    destruct (_ || _); cbn [fst]; [apply find_srch_same; reflexivity|].
+    apply find_srch_put; [reflexivity|intros X; congruence].
 Qed.
 Print Assumptions search_entries_fixed_fg.
 
